@@ -98,10 +98,10 @@ def bind_args(c: Compiled, binding: Binding, y_sym: SArr, t_sym, hist=None, skip
     """Symbolic argument tuple for the emitted function."""
     sargs = []
     for pos, (k, a) in enumerate(zip(c.keys, c.args)):
-        if k == 't' and pos == 0:
+        if pos == 0:            # time / step counter (its frontend name varies: 't', '<input node>/.../t')
             sargs.append(t_sym)
             continue
-        if k == 'y' and pos == 1:
+        if pos == 1:
             sargs.append(y_sym)
             continue
         if k == 'hist':
